@@ -71,7 +71,8 @@ def k_lunar_day_hours(eng):
 
 
 def k_sixty_day_hours(eng):
-    """SixtyCycleDay::get_hours: 12 slots, the k-th starting 7200 k seconds after 23:00 of the previous civil day"""
+    """SixtyCycleDay::get_hours: 12 slots, the k-th being the instant view 7200 k seconds after 23:00 of the previous civil day — in EVERY
+    component (instant, day-level pillars, hour pillar), whether a slot is built by the constructor, by stepping, or assembled by hand"""
     holder = {}
 
     class PrevDay:
@@ -80,12 +81,24 @@ def k_sixty_day_hours(eng):
     class Part(T):
         __slots__ = ("what",)
 
-    class View:
+    class InstV:
         def __init__(self, t):
-            self.t = t        # seconds after 23:00 of the previous civil day
+            self.t = t
+
+    SUB = {"day": struct_fields(os.path.join(REPO, "src/tyme/sixtycycle.rs"), "SixtyCycleDay")}
+
+    class PartOf(Rec):
+        """component f (a path such as 'day' or 'day.month') of the instant view at offset t; reading a field of it gives the sub-component"""
+        def __init__(self, f, t):
+            self.f, self.t, self.fields, self.name, self.ty = f, t, {}, "part:" + f, None
+
+        def field(self, k, ty):
+            names = SUB.get(self.f)
+            return PartOf("%s.%s" % (self.f, names[k] if names and k < len(names) else k), self.t)
 
     def build(eng):
         fields = struct_fields(os.path.join(REPO, "src/tyme/sixtycycle.rs"), "SixtyCycleDay")
+        hfields = struct_fields(os.path.join(REPO, "src/tyme/sixtycycle.rs"), "SixtyCycleHour")
         fn = M.find_fn(eng.fns, "get_hours", "&SixtyCycleDay")
         ctx = _ctx(eng, {})
         ctx.max_unroll = 14
@@ -95,6 +108,47 @@ def k_sixty_day_hours(eng):
         model = ctx.model
         base = model.call
         prev = PrevDay()
+
+        def view_at(c, t):
+            r = Rec(c, "view", "SixtyCycleHour")
+            for k, f in enumerate(hfields):
+                r.fields[k] = InstV(t) if f == "solar_time" else PartOf(f, t)
+            r.is_view = True
+            return r
+
+        def flat(x, path):
+            """component at `path` -> {leaf path: offset term} or None"""
+            if path == "solar_time":
+                return {path: x.t} if isinstance(x, InstV) else None
+            if isinstance(x, PartOf):
+                return {path: x.t} if x.f == path else None
+            if isinstance(x, Rec) and getattr(x, "named", None) and path in SUB and set(x.named) == set(SUB[path]):
+                out = {}
+                for f, y in x.named.items():
+                    sub = flat(y, path + "." + f)
+                    if sub is None:
+                        return None
+                    out.update(sub)
+                return out
+            return None
+
+        def comps(v):
+            """-> {leaf path: offset term} or None"""
+            if isinstance(v, PartOf):
+                return None
+            if isinstance(v, Rec) and getattr(v, "is_view", False):
+                src = {f: v.fields[k] for k, f in enumerate(hfields)}
+            elif isinstance(v, Rec) and getattr(v, "named", None) and set(v.named) == set(hfields):
+                src = v.named
+            else:
+                return None
+            out = {}
+            for f, x in src.items():
+                sub = flat(x, f)
+                if sub is None:
+                    return None
+                out.update(sub)
+            return out
 
         def call(c, fr, callee, args, path):
             a = [model.deref(c, x) for x in args]
@@ -109,13 +163,24 @@ def k_sixty_day_hours(eng):
             if callee == "SolarTime::from_ymd_hms" and len(a) == 6:
                 if not (all(isinstance(x, Part) for x in a[:3]) and [x.what for x in a[:3]] == ["get_year", "get_month", "get_day"] and all(isinstance(x, T) for x in a[3:])):
                     raise Unsupported("an instant that is not on the previous civil day is built")
-                return True, ("instant", T("(+ (* 3600 (- %s 23)) (* 60 %s) %s)" % (a[3].s, a[4].s, a[5].s), "Int"))
-            if callee == "SixtyCycleHour::from_solar_time" and isinstance(a[0], tuple) and a[0][0] == "instant":
-                return True, View(a[0][1])
-            if callee == "<SixtyCycleHour as Tyme>::next" and isinstance(a[0], View) and isinstance(a[1], T):
-                return True, View(T("(+ %s %s)" % (a[0].t.s, a[1].s), "Int"))       # 11.j
-            if callee == "<SixtyCycleHour as Clone>::clone" and isinstance(a[0], View):
+                return True, InstV(T("(+ (* 3600 (- %s 23)) (* 60 %s) %s)" % (a[3].s, a[4].s, a[5].s), "Int"))
+            if callee == "SixtyCycleHour::from_solar_time" and isinstance(a[0], InstV):
+                return True, view_at(c, a[0].t)
+            if callee == "<SolarTime as Tyme>::next" and isinstance(a[0], InstV) and isinstance(a[1], T):
+                return True, InstV(T("(+ %s %s)" % (a[0].t.s, a[1].s), "Int"))            # 12.a
+            if callee == "SolarTime::get_solar_day" and isinstance(a[0], InstV):
+                return True, PartOf("day.solar_day", a[0].t)       # the civil day of the instant: what from_solar_time stores there
+            if callee == "<SixtyCycleHour as Tyme>::next" and isinstance(a[1], T) and comps(a[0]) is not None:
+                return True, view_at(c, T("(+ %s %s)" % (comps(a[0])["solar_time"].s, a[1].s), "Int"))       # 11.j
+            if callee == "<SixtyCycle as Tyme>::next" and isinstance(a[0], PartOf) and a[0].f == "hour" and isinstance(a[1], T):
+                return True, PartOf("hour", T("(+ %s (* 7200 %s))" % (a[0].t.s, a[1].s), "Int"))     # the hour pillar advances one per double hour (09.a)
+            if callee.endswith(" as Clone>::clone") and (isinstance(a[0], (PartOf, InstV)) or comps(a[0]) is not None):
                 return True, a[0]
+            if comps(a[0]) is not None if a else False:
+                got = {"SixtyCycleHour::get_solar_time": "solar_time", "SixtyCycleHour::get_sixty_cycle_day": "day", "SixtyCycleHour::get_sixty_cycle": "hour"}.get(callee)
+                if got:
+                    t = comps(a[0])[got]
+                    return True, (InstV(t) if got == "solar_time" else PartOf(got, t))
             return base(c, fr, callee, args, path)
         model.call = call
         paths = ctx.run(fn, [("refrec", rec)])
@@ -125,12 +190,16 @@ def k_sixty_day_hours(eng):
                 return None
             if not isinstance(p.ret, VecV):
                 return "result is not the vector that was filled"
-            return None if all(isinstance(x, View) for x in p.ret.items) else "an element is not an instant view derived from the previous day's 23:00"
+            return None if all(comps(x) is not None for x in p.ret.items) else "an element is not an instant view derived from the previous day's 23:00"
 
         def posts(p):
             if getattr(p, "cut", False):
                 return []
-            return [("length", "true" if len(p.ret.items) == 12 else "false")] + [("slot-%d" % k, "(= %s %d)" % (x.t.s, 7200 * k)) for k, x in enumerate(p.ret.items[:12])]
+            out = [("length", "true" if len(p.ret.items) == 12 else "false")]
+            for k, x in enumerate(p.ret.items[:12]):
+                for f, t in comps(x).items():
+                    out.append(("slot-%d-%s" % (k, f), "(= %s %d)" % (t.s, 7200 * k)))
+            return out
         return ctx, paths, [], posts, shape
 
     r = run_kernel(eng, "13.f/B/sixty-day-hours", "13.f", "every sexagenary day; listing loop unrolled (bound proved)", build, None, _replay("a sexagenary day does not list exactly its 12 double-hours"))
@@ -252,16 +321,38 @@ def k_week_days(eng, lunar):
 
     def setup(ctx, rec):
         F = ctx.fresh_value("first_day", "isize")
+        # attributes of the first day, for bodies that rebuild the following days from (year, month, day) instead of stepping:
+        # the first day is day `dom` of a lunar month (signed number msigned = -munsigned for a leap month) of `mlen` days
+        dom, mlen, ytag, mu, leap = (ctx.fresh_value(n, t) for n, t in (("day_of_month_of_the_first_day", "usize"), ("length_of_its_month", "usize"), ("year_of_its_month", "isize"),
+                                                                          ("number_of_its_month", "usize"), ("its_month_is_leap", "bool")))
+        ms = "(ite %s (- %s) %s)" % (leap.s, mu.s, mu.s)
+        mon = Rec(ctx, "month_of_the_first_day", "LunarMonth")
 
         def hook(c, callee, a):
+            if lunar and a and isinstance(a[0], _Day) and a[0].t is F:
+                if callee == "LunarDay::get_lunar_month":
+                    return True, mon
+                r = {"LunarDay::get_day": dom, "LunarDay::get_year": ytag, "LunarDay::get_month": T(ms, "Int")}.get(callee)
+                if r is not None:
+                    return True, r
+            if lunar and a and a[0] is mon:
+                r = {"LunarMonth::get_day_count": mlen, "LunarMonth::get_year": ytag, "LunarMonth::get_month": mu, "LunarMonth::get_month_with_leap": T(ms, "Int"), "LunarMonth::is_leap": leap}.get(callee)
+                if r is not None:
+                    return True, r
+            if lunar and callee in ("LunarDay::from_ymd", "LunarDay::new") and len(a) == 3 and all(isinstance(x, T) for x in a):
+                same = "(and (= %s %s) (= %s %s) (<= 1 %s) (<= %s %s))" % (a[0].s, ytag.s, a[1].s, ms, a[2].s, a[2].s, mlen.s)
+                other = c.fresh_value("day_number_of_some_other_lunar_day", "isize")
+                return True, _Day(T("(ite %s (+ %s (- %s %s)) %s)" % (same, F.s, a[2].s, dom.s, other.s), "Int"))
             if callee == W + "::get_first_day" and a[0] is rec:
-                return True, _Day(F)
+                d0 = _Day(F)
+                d0.t = F
+                return True, d0
             if callee == "<%s as Tyme>::next" % D and isinstance(a[0], _Day) and isinstance(a[1], T):
                 return True, _Day(T("(+ %s %s)" % (a[0].t.s, a[1].s), "Int"))      # 01.g / 02.d
             if callee == "<%s as Clone>::clone" % D and isinstance(a[0], _Day):
                 return True, a[0]
             return False, None
-        return [], ["(<= 1721424 %s 5373484)" % F.s], F, hook
+        return [], ["(<= 1721424 %s 5373484)" % F.s, "(<= 29 %s 30)" % mlen.s, "(<= 1 %s %s)" % (dom.s, mlen.s), "(<= 1 %s 12)" % mu.s, "(<= (- 1) %s 9999)" % ytag.s], F, hook
 
     def expect(ctx, items, F):
         if not all(isinstance(x, _Day) for x in items):
@@ -337,3 +428,77 @@ def k_sixty_year_months(eng):
         return None, [("length", "true" if len(items) == 12 else "false")] + [("month-%d" % k, "(= %s %d)" % (x.t.s, k)) for k, x in enumerate(items[:12])]
     return _generic(eng, "13.h/B/sixty-year-months", "13.h", "every sexagenary year; listing loop unrolled (bound proved)", "SixtyCycleYear", "get_months", 1, 14, setup, expect,
                     "a sexagenary year does not list its first month and the 11 after it")
+
+
+class _Mon:
+    def __init__(self, k):
+        self.k = k
+
+
+def k_lunar_year_months(eng, count):
+    """LunarYear::get_months: exactly the `count` (12 or 13) months that carry this year's number, in order, starting from month 1.
+    Months are objects on the month line (stepping by one: 11.e); M(0) = from_ym(year, 1); M(k) carries this year's number exactly for 0 <= k < count."""
+    def setup(ctx, rec):
+        yfields = struct_fields(os.path.join(REPO, "src/tyme/lunar.rs"), "LunarYear")
+        year = rec.field(yfields.index("year"), "isize")
+
+        def hook(c, callee, a):
+            if callee == "LunarYear::get_year" and a[0] is rec:
+                return True, year
+            if callee == "LunarMonth::from_ym" and len(a) == 2 and isinstance(a[0], T) and a[0].s == year.s and isinstance(a[1], T) and a[1].c == 1:
+                return True, _Mon(0)
+            if callee == "LunarMonth::get_year" and isinstance(a[0], _Mon):
+                k = a[0].k
+                return True, (year if 0 <= k < count else T("(+ %s %d)" % (year.s, 1 if k >= count else -1), "Int"))
+            if callee == "<LunarMonth as Tyme>::next" and isinstance(a[0], _Mon) and isinstance(a[1], T) and a[1].c is not None:
+                return True, _Mon(a[0].k + a[1].c)
+            if callee == "<LunarMonth as Clone>::clone" and isinstance(a[0], _Mon):
+                return True, a[0]
+            return False, None
+        return [], ["(<= (- 1) %s 9999)" % year.s], None, hook
+
+    def expect(ctx, items, extra):
+        if not all(isinstance(x, _Mon) for x in items):
+            return "an element is not a month stepped from month 1 of this year", []
+        return None, [("length", "true" if len(items) == count else "false")] + [("month-%d" % k, "true" if x.k == k else "false") for k, x in enumerate(items)]
+    return _generic(eng, "13.c/B/lunar-year-months/%d" % count, "13.c", "every year, a year of %d months; listing loop unrolled (bound proved)" % count, "LunarYear", "get_months", 1, 16, setup, expect,
+                    "a lunar year does not list exactly its months")
+
+
+def k_lunar_year_days(eng, count):
+    """LunarYear::get_day_count = the sum of the day counts of the listed months (hence, where months tile, the distance between successive new-year days)"""
+    holder = {}
+
+    def build(eng):
+        fn = M.find_fn(eng.fns, "get_day_count", "&LunarYear")
+        ctx = _ctx(eng, {})
+        ctx.max_unroll = 16
+        holder.update(ctx=ctx)
+        rec = Rec(ctx, "self", "LunarYear")
+        lens = [ctx.fresh_value("days_of_month_%d" % k, "usize") for k in range(count)]
+        model = ctx.model
+        base = model.call
+
+        def call(c, fr, callee, args, path):
+            a = [model.deref(c, x) for x in args]
+            if callee == "LunarYear::get_months" and a[0] is rec:
+                return True, VecV([_Mon(k) for k in range(count)])      # 13.c
+            if callee == "LunarMonth::get_day_count" and isinstance(a[0], _Mon):
+                return True, lens[a[0].k]
+            return base(c, fr, callee, args, path)
+        model.call = call
+        paths = ctx.run(fn, [("refrec", rec)])
+        pre = ["(<= 29 %s 30)" % x.s for x in lens]
+
+        def shape(p):
+            return None if getattr(p, "cut", False) or isinstance(p.ret, T) else "result is not a number"
+        return ctx, paths, pre, (lambda p: [] if getattr(p, "cut", False) else [("sum-of-the-months", "(= %s (+ %s))" % (p.ret.s, " ".join(x.s for x in lens))),
+                                                                              ("year-length", "(<= %d %s %d)" % (29 * count, p.ret.s, 30 * count))]), shape
+
+    def replay(eng, model):
+        nat = eng.native("lunar_lists_scan")
+        if nat in ("NONE", "PANIC", "UNKNOWN", ""):
+            return nat == "PANIC", "native scan: " + (nat or "no output")
+        return True, "lunar year day count: " + nat
+    r = run_kernel(eng, "03.d/B/lunar-year-days/%d" % count, "03.d", "a year of %d months of 29..30 days each; summing loop unrolled (bound proved)" % count, build, None, replay)
+    return _finish(r, holder["ctx"]) if "ctx" in holder else r
